@@ -136,9 +136,14 @@ def distribution_cost(
 
     comm = 0
     agt_names = [a.name for a in agentsdef]
+    seen = set()
     for l in computation_graph.links:
         # As we support hypergraph, we may have more than 2 ends to a link
         for c1, c2 in combinations(l.nodes, 2):
+            # msg_load already sums over all the links shared by c1 and c2
+            if frozenset((c1, c2)) in seen:
+                continue
+            seen.add(frozenset((c1, c2)))
             a1 = distribution.agent_for(c1)
             a2 = distribution.agent_for(c2)
             comm += route(a1, a2) * msg_load(c1, c2)
@@ -199,7 +204,7 @@ def ilp_cgdp(
         for l in cg.links:
             # As we support hypergraph, we may have more than 2 ends to a link
             for c1, c2 in combinations(l.nodes, 2):
-                if (c1, a1, c2, a2) in betas:
+                if (c1, a1, c2, a2) in betas or (c2, a2, c1, a1) in betas:
                     continue
                 count += 2
                 b = LpVariable("b_{}_{}_{}_{}".format(c1, a1, c2, a2), cat=LpBinary)
@@ -219,6 +224,7 @@ def ilp_cgdp(
                     pb += b >= xs[(c2, a2)] + xs[(c1, a1)] - 1
 
                 b = LpVariable("b_{}_{}_{}_{}".format(c1, a2, c2, a1), cat=LpBinary)
+                betas[(c1, a2, c2, a1)] = b
                 if (c1, a2) in x_fixed_to_0 or (c2, a1) in x_fixed_to_0:
                     pb += b == 0
                 elif (c1, a2) in x_fixed_to_1:
@@ -226,7 +232,6 @@ def ilp_cgdp(
                 elif (c2, a1) in x_fixed_to_1:
                     pb += b == xs[(c1, a2)]
                 else:
-                    betas[(c1, a2, c2, a1)] = b
                     pb += b <= xs[(c2, a1)]
                     pb += b <= xs[(c1, a2)]
                     pb += b >= xs[(c1, a2)] + xs[(c2, a1)] - 1
